@@ -94,7 +94,7 @@ func (s *state) try(kind string, data []byte, origin string) {
 			class = "error"
 		case strings.HasSuffix(res, " err"):
 			class = "error"
-		case strings.HasSuffix(res, " eof"):
+		case strings.HasSuffix(res, " eof"), res == "unbounded-empty-rows":
 			class = "ok"
 		}
 	}
@@ -260,7 +260,7 @@ func buildCorpus(r *rand.Rand) []sample {
 // ---------------------------------------------------------------------------
 // single-field corruptions
 
-var nastyTokens = []string{"0", "-1", "1", "3", "2147483648", "4294967295", "-2147483649", "9223372036854775807",
+var nastyTokens = []string{"0", "-1", "1", "3", "4", "2147483648", "4294967295", "-2147483649", "9223372036854775807",
 	"9223372036854775808", "99999999999999999999", "255", "256", "x", "1e999", "nan", "-0", "+5", "0x10", "1_0",
 	"uchar", "uint8", "int8", "float", "double", "int", "list", "property", "element", "comment", "end_header", "vertex", "face",
 	"endsolid", "endfacet", "facet", "solid", "OFF", "\xc2\xa0", "\""}
@@ -356,6 +356,14 @@ func corruptions(sm sample) [][]byte {
 				}
 			}
 			out = append(out, append(b, data[nt:]...))
+		}
+	}
+	// PLY: an extra element declared without any property, with a small and with huge counts
+	if sm.format == "ply" {
+		if i := bytes.Index(data, []byte("end_header\n")); i >= 0 {
+			for _, n := range []string{"1", "4294967295", "9223372036854775807"} {
+				out = append(out, splice(data, i, i, []byte("element extra "+n+"\n")))
+			}
 		}
 	}
 	// binary region: every byte -> 00 ff 80 7f; every 2/4-byte window -> extreme patterns in both byte orders
